@@ -66,9 +66,6 @@ Proof.
   - destruct (cset (w_st w)); [reflexivity|discriminate].
 Qed.
 
-Lemma ostr_k_inj a b : ostr_k a = ostr_k b -> a = b.
-Proof. unfold ostr_k. intros H. injection H as H. apply Nnat.Nat2N.inj. exact H. Qed.
-
 Lemma is_under_root c (r n : name) q : c_cs c = true ->
   is_under c [r] q = true -> exists a rest, q = a :: rest /\ rest <> [] /\ a = r.
 Proof.
